@@ -19,6 +19,38 @@ type opCtx struct {
 	view string // "" = H3 snapshot, "Pending()" = the public API view
 }
 
+// report records a violation of a state clause unless the very same fact
+// (clause + subject) already held in the previously checked snapshot: a
+// persisting bad state is attributed to the operation that introduced it.
+func (u *universe) report(cur map[string]bool, clause, op, cause, subject, detail string) {
+	key := clause + "|" + subject
+	cur[key] = true
+	u.mu.Lock()
+	old := u.prevBad[key]
+	u.mu.Unlock()
+	if old {
+		u.c.Count("persisting_violation_not_rereported")
+		return
+	}
+	u.c.Violate(clause, op, cause, detail+u.recentOps())
+}
+
+// dumpAcct writes out what the pool holds for one account.
+func (u *universe) dumpAcct(s *snap, a common.Address) string {
+	if s == nil {
+		return "-"
+	}
+	out := fmt.Sprintf("chain nonce %d balance %v virtual nonce %d pending [", s.Accounts[a].StateNonce, s.Accounts[a].StateBalance, s.Accounts[a].PendingNonce)
+	for _, tx := range s.Pending[a] {
+		out += txStr(u, tx)
+	}
+	out += "] queue ["
+	for _, tx := range s.Queue[a] {
+		out += txStr(u, tx)
+	}
+	return out + "]"
+}
+
 func countTxs(m map[common.Address]types.Transactions) int {
 	n := 0
 	for _, l := range m {
@@ -39,8 +71,7 @@ func isLocal(s *snap, a common.Address) bool {
 // checkExecutable decides the first sentence of the property on a pending view:
 // per sender a gap-free run of nonces starting at the chain nonce the pool
 // works against, every transaction affordable against that state.
-func (u *universe) checkExecutable(pending map[common.Address]types.Transactions, s *snap, oc opCtx) {
-	c := u.c
+func (u *universe) checkExecutable(pending map[common.Address]types.Transactions, s *snap, oc opCtx, cur map[string]bool) {
 	op := oc.op
 	if oc.view != "" {
 		op = oc.view
@@ -56,7 +87,7 @@ func (u *universe) checkExecutable(pending map[common.Address]types.Transactions
 		}
 		for i, tx := range list {
 			if u.senderOf(tx) != a {
-				c.Violate("pending_wrong_sender", op, "", fmt.Sprintf("transaction %s is filed under account %x%s", txStr(u, tx), a, u.recentOps()))
+				u.report(cur, "pending_wrong_sender", op, "", tx.Hash().Hex(), fmt.Sprintf("transaction %s is filed under account %x", txStr(u, tx), a))
 			}
 			want := ac.StateNonce + uint64(i)
 			if tx.Nonce() != want {
@@ -66,17 +97,17 @@ func (u *universe) checkExecutable(pending map[common.Address]types.Transactions
 				} else if tx.Nonce() < want && (i == 0 || tx.Nonce() < ac.StateNonce) {
 					cause = "below_chain_nonce"
 				}
-				c.Violate("pending_not_gap_free", op, cause, fmt.Sprintf("account s%d: chain nonce %d, pending nonces %v (position %d holds %d, want %d)%s",
-					u.keyIdx[a], ac.StateNonce, nonces(list), i, tx.Nonce(), want, u.recentOps()))
+				u.report(cur, "pending_not_gap_free", op, cause, fmt.Sprintf("%x/%s", a, cause), fmt.Sprintf("account s%d: chain nonce %d, pending nonces %v (position %d holds %d, want %d)\n  before: %s\n  now:    %s",
+					u.keyIdx[a], ac.StateNonce, nonces(list), i, tx.Nonce(), want, u.dumpAcct(oc.before, a), u.dumpAcct(s, a)))
 				break
 			}
 		}
 		for _, tx := range list {
 			if cost(tx).Cmp(ac.StateBalance) > 0 {
-				c.Violate("pending_not_affordable", op, "cost_above_balance", fmt.Sprintf("account s%d balance %v, pending %s costs %v%s", u.keyIdx[a], ac.StateBalance, txStr(u, tx), cost(tx), u.recentOps()))
+				u.report(cur, "pending_not_affordable", op, "cost_above_balance", tx.Hash().Hex()+"/cost", fmt.Sprintf("account s%d balance %v, pending %s costs %v\n  before: %s\n  now:    %s", u.keyIdx[a], ac.StateBalance, txStr(u, tx), cost(tx), u.dumpAcct(oc.before, a), u.dumpAcct(s, a)))
 			}
 			if tx.Gas() > s.CurrentMaxGas {
-				c.Violate("pending_not_affordable", op, "gas_above_block_limit", fmt.Sprintf("block gas limit %d, pending %s%s", s.CurrentMaxGas, txStr(u, tx), u.recentOps()))
+				u.report(cur, "pending_not_affordable", op, "gas_above_block_limit", tx.Hash().Hex()+"/gas", fmt.Sprintf("block gas limit %d, pending %s", s.CurrentMaxGas, txStr(u, tx)))
 			}
 		}
 	}
@@ -94,7 +125,13 @@ func nonces(l types.Transactions) []uint64 {
 func (u *universe) checkInv(s *snap, oc opCtx) {
 	c := u.c
 	c.Count("snapshots_checked")
-	u.checkExecutable(s.Pending, s, oc)
+	cur := map[string]bool{}
+	defer func() {
+		u.mu.Lock()
+		u.prevBad = cur
+		u.mu.Unlock()
+	}()
+	u.checkExecutable(s.Pending, s, oc, cur)
 
 	// at most one transaction per (sender, nonce) across pending and queue
 	type slot struct {
@@ -108,7 +145,7 @@ func (u *universe) checkInv(s *snap, oc opCtx) {
 			for _, tx := range m[a] {
 				k := slot{a, tx.Nonce()}
 				if old, dup := seen[k]; dup {
-					c.Violate("duplicate_sender_nonce", oc.op, "", fmt.Sprintf("account s%d nonce %d held by %s and %s%s", u.keyIdx[a], tx.Nonce(), txStr(u, old), txStr(u, tx), u.recentOps()))
+					u.report(cur, "duplicate_sender_nonce", oc.op, "", fmt.Sprintf("%x/%d", a, tx.Nonce()), fmt.Sprintf("account s%d nonce %d held by %s and %s\n  before: %s\n  now:    %s", u.keyIdx[a], tx.Nonce(), txStr(u, old), txStr(u, tx), u.dumpAcct(oc.before, a), u.dumpAcct(s, a)))
 				}
 				seen[k] = tx
 				union[tx.Hash()] = true
@@ -118,12 +155,23 @@ func (u *universe) checkInv(s *snap, oc opCtx) {
 	// the lookup index is exactly pending + queue
 	for h, tx := range s.All {
 		if !union[h] {
-			c.Violate("index_mismatch", oc.op, "indexed_but_not_listed", fmt.Sprintf("%s is in the lookup index but in neither list%s", txStr(u, tx), u.recentOps()))
+			a := u.senderOf(tx)
+			// classify: was it the tail of a pending run whose first transaction was
+			// removed (the account has no pending list any more)?
+			cause := "indexed_but_not_listed"
+			if oc.before != nil && len(s.Pending[a]) == 0 && oc.op != "concurrent" && oc.op != "quiescent" {
+				for i, b := range oc.before.Pending[a] {
+					if i > 0 && b.Hash() == h {
+						cause = "pending_tail_lost_when_run_head_removed"
+					}
+				}
+			}
+			u.report(cur, "index_mismatch", oc.op, cause, h.Hex(), fmt.Sprintf("%s is in the lookup index but in neither list\n  before: %s\n  now:    %s", txStr(u, tx), u.dumpAcct(oc.before, a), u.dumpAcct(s, a)))
 		}
 	}
 	for h := range union {
 		if _, ok := s.All[h]; !ok {
-			c.Violate("index_mismatch", oc.op, "listed_but_not_indexed", fmt.Sprintf("transaction %x is listed but not in the lookup index%s", h, u.recentOps()))
+			u.report(cur, "index_mismatch", oc.op, "listed_but_not_indexed", h.Hex(), fmt.Sprintf("transaction %x is listed but not in the lookup index", h))
 		}
 	}
 
@@ -138,18 +186,18 @@ func (u *universe) checkInv(s *snap, oc opCtx) {
 		n := uint64(len(s.Queue[a]))
 		nonLocalQueued += n
 		if n > cfg.AccountQueue {
-			c.Violate("account_queue_limit", oc.op, u.limitCause(a, s, oc), fmt.Sprintf("non-local account s%d has %d queued transactions (nonces %v), AccountQueue %d; pending nonces %v%s",
-				u.keyIdx[a], n, nonces(s.Queue[a]), cfg.AccountQueue, nonces(s.Pending[a]), u.recentOps()))
+			u.report(cur, "account_queue_limit", oc.op, u.limitCause(a, s, oc), a.Hex(), fmt.Sprintf("non-local account s%d has %d queued transactions, AccountQueue %d\n  before: %s\n  now:    %s",
+				u.keyIdx[a], n, cfg.AccountQueue, u.dumpAcct(oc.before, a), u.dumpAcct(s, a)))
 		}
 	}
 	if nonLocalQueued > cfg.GlobalQueue {
-		c.Violate("global_queue_limit", oc.op, u.limitCause(common.Address{}, s, oc), fmt.Sprintf("%d queued transactions of non-local accounts, GlobalQueue %d%s", nonLocalQueued, cfg.GlobalQueue, u.recentOps()))
+		u.report(cur, "global_queue_limit", oc.op, u.limitCause(common.Address{}, s, oc), "", fmt.Sprintf("%d queued transactions of non-local accounts, GlobalQueue %d", nonLocalQueued, cfg.GlobalQueue))
 	}
 	if totalPending > cfg.GlobalSlots {
 		for _, a := range sortedAddrs(s.Pending) {
 			if !isLocal(s, a) && uint64(len(s.Pending[a])) > cfg.AccountSlots {
-				c.Violate("pending_limit", oc.op, u.limitCause(a, s, oc), fmt.Sprintf("%d pending > GlobalSlots %d and non-local account s%d holds %d > AccountSlots %d%s",
-					totalPending, cfg.GlobalSlots, u.keyIdx[a], len(s.Pending[a]), cfg.AccountSlots, u.recentOps()))
+				u.report(cur, "pending_limit", oc.op, u.limitCause(a, s, oc), a.Hex(), fmt.Sprintf("%d pending > GlobalSlots %d and non-local account s%d holds %d > AccountSlots %d",
+					totalPending, cfg.GlobalSlots, u.keyIdx[a], len(s.Pending[a]), cfg.AccountSlots))
 			}
 		}
 	}
@@ -161,7 +209,7 @@ func (u *universe) checkInv(s *snap, oc opCtx) {
 		}
 	}
 	if nonLocalTotal > cfg.GlobalSlots+cfg.GlobalQueue {
-		c.Violate("pool_total_limit", oc.op, u.limitCause(common.Address{}, s, oc), fmt.Sprintf("%d transactions of non-local accounts, GlobalSlots+GlobalQueue %d%s", nonLocalTotal, cfg.GlobalSlots+cfg.GlobalQueue, u.recentOps()))
+		u.report(cur, "pool_total_limit", oc.op, u.limitCause(common.Address{}, s, oc), "", fmt.Sprintf("%d transactions of non-local accounts, GlobalSlots+GlobalQueue %d", nonLocalTotal, cfg.GlobalSlots+cfg.GlobalQueue))
 	}
 
 	// observations (not part of the property text): virtual nonce, price heap
@@ -208,7 +256,7 @@ func (u *universe) checkViews(s *snap) {
 	c := u.c
 	c.Count("public_views_checked")
 	p, _ := u.pool.Pending()
-	u.checkExecutable(p, s, opCtx{op: "quiescent", view: "Pending()"})
+	u.checkExecutable(p, s, opCtx{op: "quiescent", view: "Pending()"}, map[string]bool{})
 	same := func(name string, got, want map[common.Address]types.Transactions) {
 		for a, l := range got {
 			if len(l) == 0 {
